@@ -1,3 +1,4 @@
+mod c01;
 mod c03;
 mod c04;
 mod c05;
@@ -12,6 +13,7 @@ mod c15;
 mod c16;
 mod c17;
 mod expand;
+mod e2e;
 mod extras;
 mod extract;
 mod model;
@@ -43,6 +45,7 @@ fn main() {
                 }
             }
         }
+        "C01" => c01::main(&args[1..]),
         "C03" => c03::main(&args[1..]),
         "C04" => c04::main(&args[1..]),
         "C05" => c05::main(&args[1..]),
